@@ -525,7 +525,7 @@ pub fn gen_plan(seed: u64, prof: &Profile) -> Plan {
     let log_burst = logs && r.chance(1, 3);
     // a flood: hundreds to thousands of events emitted at the very end of one callback - more than the
     // runner forwards or a writer buffers in one go at any conceivable batch size
-    let log_flood = log_burst && r.chance(1, 4);
+    let log_flood = log_burst && r.chance(1, 2);
     let mut gen_beh = |r: &mut Rng, world: bool| -> Behaviour {
         let mut awaits = Vec::new();
         if r.chance(await_pm, 1000) {
@@ -546,8 +546,8 @@ pub fn gen_plan(seed: u64, prof: &Profile) -> Plan {
             // a World constructor logs now and then (it runs inside the before hook's or a step's span)
             if r.chance(1, 3) { (r.below(3) as u16, r.below(3) as u16) } else { (0, 0) }
         } else if logs {
-            if log_flood && r.chance(1, 25) {
-                (r.below(3) as u16, r.range(300, 3000) as u16)
+            if log_flood && r.chance(1, 10) {
+                (r.below(3) as u16, if r.chance(1, 2) { r.range(300, 1500) } else { r.range(1500, 5000) } as u16)
             } else if log_burst && r.chance(1, 12) {
                 // a burst: many log events queued ahead of one result event
                 (r.range(20, 120) as u16, r.below(3) as u16)
@@ -662,6 +662,7 @@ pub fn gen_plan(seed: u64, prof: &Profile) -> Plan {
 
     let tracing_targets_only = prof.tracing && r.chance(1, 8);
     let late_logs = prof.tracing && !tracing_targets_only && r.chance(1, 2);
+    let plain_logs = prof.tracing && r.chance(1, 4);
     let tags_filter = (prof.pipeline_pm > 0 && r.chance(1, 8))
         .then(|| (*r.pick(&["not @serial", "not @allow.skipped", "@serial or not @allow.skipped", "@allow.skipped and not @serial", "@allow.skipped or @serial"])).to_owned());
     let mut cfg = cfg;
@@ -691,5 +692,6 @@ pub fn gen_plan(seed: u64, prof: &Profile) -> Plan {
         filtered_rules,
         tracing_targets_only,
         late_logs,
+        plain_logs,
     }
 }
